@@ -7,7 +7,7 @@ CONSTANTS
   PurgeIds <- C_PurgeIds
   CommitIds <- C_CommitIds
   Users <- C_Users
-  Cfgs <- C_CfgsWide
+  Cfgs <- C_Cfgs
   MaxCalls = 4
   MaxFlush = 1
   MaxReopen = 0
